@@ -85,7 +85,8 @@ def verdicts(pid: str, repo: str):
     mine = []
     for rn, insts in results.items():
         for i in insts:
-            if pid in i.props or any(i.rule == ar and i.func == af for ar, af in info.get('also', [])):
+            if pid in i.props or any(q in i.props for q in info.get('includes', [])) or \
+                    any(i.rule == ar and i.func == af for ar, af in info.get('also', [])):
                 mine.append(i)
     known = known_keys_for(pid)
     return [i for i in mine if i.verdict == 'violation' and i.key not in known], mine
@@ -106,7 +107,8 @@ def check(pid: str, tier: str, replay: str = None, repo: str = None, quiet=False
     mine: list[Inst] = []
     for rn, insts in results.items():
         for i in insts:
-            if pid in i.props or any(i.rule == ar and i.func == af for ar, af in info.get('also', [])):
+            if pid in i.props or any(q in i.props for q in info.get('includes', [])) or \
+                    any(i.rule == ar and i.func == af for ar, af in info.get('also', [])):
                 mine.append(i)
     # anchors: every (rule, function) the property relies on must have produced an instance
     missing = []
